@@ -34,10 +34,11 @@ pub struct Mutation {
 
 fn illegal_chars(cs: Charset) -> Vec<char> {
     match cs {
-        Charset::Numeric => vec!['/', ':', 'a', '*', '_', '\u{7f}', '\u{80}', '\u{20ac}', '\u{0}'],
-        Charset::Printable => vec!['*', '_', '@', '&', '!', '\u{7f}', '\u{80}', '\u{20ac}', '\u{0}', '[', '`', '{'],
-        Charset::Visible => vec!['\u{1f}', '\u{7f}', '\u{80}', '\u{20ac}', '\u{0}', '\n'],
-        Charset::Ia5 => vec!['\u{80}', '\u{20ac}', '\u{ff}', '\u{100}'],
+        // (the last ones of each line: outside the alphabet, low octet or low seven bits inside it)
+        Charset::Numeric => vec!['/', ':', 'a', '*', '_', '\u{7f}', '\u{80}', '\u{20ac}', '\u{0}', '\u{130}', '\u{b0}', '\u{120}'],
+        Charset::Printable => vec!['*', '_', '@', '&', '!', '\u{7f}', '\u{80}', '\u{20ac}', '\u{0}', '[', '`', '{', '\u{141}', '\u{c1}', '\u{ff41}'],
+        Charset::Visible => vec!['\u{1f}', '\u{7f}', '\u{80}', '\u{20ac}', '\u{0}', '\n', '\u{141}', '\u{c1}', '\u{ff21}'],
+        Charset::Ia5 => vec!['\u{80}', '\u{20ac}', '\u{ff}', '\u{100}', '\u{141}', '\u{1F600}'],
         Charset::Utf8 => vec![],
     }
 }
@@ -364,7 +365,7 @@ pub fn run(ctx: Ctx) -> i32 {
     let n_entries = zoo.entries.len();
     let per_entry = tier.pick(6u32, 120u32);
     let bad = run_in_workers(&report, 16, std::time::Duration::from_secs(tier.pick(900, 10800)), &|report: &Report| {
-        let cfg = ValueCfg { big_weight: 0, max_big: 300, max_big_elems: 300, conformance: true, out_of_root: false, cap_open_types: true, hard_limit: None };
+        let cfg = ValueCfg { big_weight: 0, max_big: 300, max_big_elems: 300, conformance: true, out_of_root: false, cap_open_types: true, hard_limit: None, foreign_chars: false };
         if report.ctx.my_shards(1).contains(&0) {
             let mut local = Local::default();
             forged(report, &mut local);
